@@ -28,6 +28,7 @@ import lightworks as lw
 from lightworks import emulator
 from lightworks.qubit import qiskit_converter
 from lightworks.qubit.converter.qiskit_convert import (
+    QiskitConverter,
     convert_two_qubits_to_adjacent,
     post_selection_analyzer,
 )
@@ -50,7 +51,9 @@ ARITY = {**{n: 1 for n in SINGLE + ROT}, **{n: 2 for n in TWO}, **{n: 3 for n in
 # unsupported standard instructions used by the malformed stream: name -> (n_qubits, n_params)
 UNSUPPORTED = {"cy": (2, 0), "ch": (2, 0), "u": (1, 3), "id": (1, 0), "cp": (2, 1), "crz": (2, 1),
                "iswap": (2, 0), "cswap": (3, 0), "rxx": (2, 1), "r": (1, 2)}
-ANGLES = [0.0, math.pi, math.pi / 2, -math.pi / 2, math.pi / 4, 2 * math.pi, 0.3, -1.1, 2.5, 4.0, 5.9]
+ANGLES = [0.0, math.pi, math.pi / 2, -math.pi / 2, math.pi / 4, 2 * math.pi, 0.3, -1.1, 2.5, 4.0, 5.9,
+          # boundary values: odd multiples of pi beyond 2 pi and negative ones (half-angle sign), Python ints, tiny and large angles
+          3 * math.pi, -math.pi, -2 * math.pi, 7.5, -9.0, 1, -2, 3, 1e-9, 13.0]
 
 
 class Hang(Exception):
@@ -213,6 +216,8 @@ def check_unitary(circ, ps, qc, nq, budget):
     inputs = [lw.State(dual_rail(b)) for b in basis]
     res = emulator.Simulator(circ).simulate(inputs, [lw.State(list(s)) for s in outs])
     amps = np.asarray(res.array)                                 # [input, output]
+    if not np.all(np.isfinite(amps)):
+        return "the converted circuit has amplitudes that are not finite numbers", True
     V = np.asarray(Operator(qc).data)
     A = np.zeros((2 ** nq, 2 ** nq), dtype=complex)              # A[out, in]
     leak = 0.0
@@ -377,7 +382,13 @@ class C12:
             "then 2-qubit gate on two of its qubits), multi-register circuits, a malformed stream (unsupported/"
             "measure/barrier/4-qubit/non-adjacent ccx/ccz without post-selection/custom instructions with a supported "
             "name), exhaustive convert_two_qubits_to_adjacent on all pairs < 9, post_selection_analyzer on random "
-            "programs; non-trivial = at least one multi-qubit instruction (conv/ana) or non-adjacent pair (adj); "
+            "programs; rotation angles include multiples of pi beyond 2 pi, negative, integer and tiny values; the converter is "
+            "called positionally, with the documented default and by keyword; objects that are not qiskit circuits must be refused. "
+            "History (oracle): one long-lived QiskitConverter re-configured through its allow_post_selection attribute converts "
+            "every case after the fresh conversion and must agree with it (also after refused conversions), earlier results must "
+            "not change, every returned circuit / PostSelection is edited in place and each program is converted once more at the "
+            "end; the qiskit circuit must be left unchanged; non-trivial = at least one multi-qubit instruction (conv/ana) or "
+            "non-adjacent pair (adj); "
             "distinct = distinct canonical JSON")
     TRUSTED = ["reading (name, circuit-level qubit index, has-parameter) off qiskit instruction objects is done by the harness (find_bit)",
                "the harness replays the model's emitted program with the real gate library (gate matrices = C13, Circuit.add = C02)",
@@ -437,6 +448,13 @@ class C12:
             cases.append(malformed(rng))
         for _ in range(300 if thorough else 16):
             cases.append(multireg(rng))
+        # API form of the call: positional flag / the documented default (False) / keyword
+        for c in cases:
+            if c["kind"] == "conv":
+                c["form"] = rng.choice([0, 0, 1, 2])
+        # things that are not a qiskit circuit must be refused, not converted into something
+        for what in ("lw_circuit", "none", "list", "instruction"):
+            cases.append(dict(kind="badarg", what=what, ps=rng.random() < 0.5))
         return cases
 
     # -------------------------------------------------------------------- impl
@@ -448,19 +466,78 @@ class C12:
             except Hang:
                 return {"hang": True}
             return {"pair": [a, b], "swaps": [list(s) for s in sw]}
+        if k == "badarg":
+            arg = {"lw_circuit": lambda: lw.Circuit(4), "none": lambda: None, "list": lambda: [("h", 0)],
+                   "instruction": lambda: QuantumCircuit(2).to_instruction()}[c["what"]]()
+            try:
+                r = with_timeout(lambda: qiskit_converter(arg, c["ps"]), 5)
+                return {"ok": type(r).__name__}
+            except Hang:
+                return {"err": "Hang"}
+            except Exception as e:  # noqa: BLE001
+                return {"err": type(e).__name__}
         qc = build_qc(c)
         if k == "ana":
             flags, qs = post_selection_analyzer(qc)
             return {"flags": [bool(f) for f in flags], "qubits": sorted(int(q) for q in qs)}
+        before = triples(qc)
+        form = c.get("form", 0)
+
+        def call():
+            if form == 1 and not c["ps"]:
+                return qiskit_converter(qc)                      # documented default: no post-selection
+            if form == 2:
+                return qiskit_converter(circuit=qc, allow_post_selection=c["ps"])
+            return qiskit_converter(qc, c["ps"])
         try:
-            circ, ps = with_timeout(lambda: qiskit_converter(qc, c["ps"]), 5)
+            circ, ps = with_timeout(call, 5)
+            out = {"ok": circuit_obs(circ, ps)} if isinstance(circ, lw.Circuit) else {"err": f"returned {type(circ).__name__}"}
         except Hang:
-            return {"err": "Hang"}
+            out = {"err": "Hang"}
         except Exception as e:  # noqa: BLE001
-            return {"err": type(e).__name__}
-        if not isinstance(circ, lw.Circuit):
-            return {"err": f"returned {type(circ).__name__}"}
-        return {"ok": circuit_obs(circ, ps)}
+            out = {"err": type(e).__name__}
+        out["hist"] = self._history(c, qc, out, before)
+        if "ok" in out:
+            # the returned objects are the caller's: editing them must not reach any later conversion
+            try:
+                circ.ps(0, 0.7)
+                if circ.n_modes >= 2:
+                    circ.bs(0)
+                if ps is not None:
+                    ps.add((999,), 0)
+            except Exception as e:  # noqa: BLE001
+                out["hist"] = out["hist"] or f"editing the returned circuit raised {type(e).__name__}: {e}"
+        return out
+
+    def _history(self, c, qc, fresh, before):
+        """One long-lived QiskitConverter object, reconfigured by attribute assignment and re-used for every case
+        (after conversions that succeeded, were refused or crashed): it must return what a fresh conversion returns,
+        and what it returned earlier must not change."""
+        msgs = []
+        if triples(qc) != before:
+            msgs.append("the qiskit circuit was modified by the conversion")
+        conv = getattr(self, "_shared", None)
+        if conv is None:
+            conv = self._shared = QiskitConverter()
+            self._prev = None
+        conv.allow_post_selection = c["ps"]
+        try:
+            circ2, ps2 = with_timeout(lambda: conv.convert(qc), 5)
+            again = {"ok": circuit_obs(circ2, ps2)} if isinstance(circ2, lw.Circuit) else {"err": f"returned {type(circ2).__name__}"}
+        except Hang:
+            circ2, again = None, {"err": "Hang"}
+        except Exception as e:  # noqa: BLE001
+            circ2, again = None, {"err": type(e).__name__}
+        d = core.approx_equal({k_: v for k_, v in fresh.items() if k_ != "hist"}, again)
+        if d:
+            msgs.append(f"a re-used QiskitConverter object gives a different result than a fresh conversion: {d}")
+        if self._prev is not None:
+            pc, pps, pobs = self._prev
+            d = core.approx_equal(circuit_obs(pc, pps), pobs)
+            if d:
+                msgs.append(f"the result of the previous conversion changed during this one: {d}")
+        self._prev = (circ2, ps2, again["ok"]) if "ok" in again else None
+        return "; ".join(msgs) or None
 
     # ------------------------------------------------------------------- model
     def coq_header(self):
@@ -476,6 +553,8 @@ class C12:
             return f"run_adjacent {cn(c['q0'])} {cn(c['q1'])}"
         if k == "ana":
             return f"run_analyze {self._gs(c)}"
+        if k == "badarg":
+            return "SL nil"
         return f"run_convert {cb(c['ps'])} {self._gs(c)}"
 
     def decode(self, c, sx):
@@ -486,6 +565,8 @@ class C12:
             return {"pair": [sx[0], sx[1]], "swaps": sx[2]}
         if k == "ana":
             return {"flags": [bool(b) for b in sx[0]], "qubits": sorted(sx[1])}
+        if k == "badarg":
+            return None
         r = decode_res(sx)
         if "err" in r:
             return {"err": "Hang" if r["err"] == "OtherError" else r["err"]}
@@ -494,9 +575,20 @@ class C12:
         circ, ps = replay(c, ops, rules)
         return {"ok": circuit_obs(circ, ps)}
 
+    def compare(self, c, a, b):
+        if c["kind"] == "badarg":
+            return None
+        if isinstance(a, dict) and "hist" in a:
+            a = {k_: v for k_, v in a.items() if k_ != "hist"}
+        return core.approx_equal(a, b)
+
     # ------------------------------------------------------------------ oracle
     def oracle(self, c, obs):
         k = c["kind"]
+        if k == "badarg":
+            return None if "err" in obs and obs["err"] != "Hang" else f"qiskit_converter({c['what']}) did not refuse: {obs}"
+        if k == "conv" and obs.get("hist"):
+            return obs["hist"]
         if k == "adj":
             q0, q1 = c["q0"], c["q1"]
             if q0 == q1:
@@ -536,6 +628,11 @@ class C12:
             return None       # custom instruction: no qiskit meaning to compare with
         qc = build_qc(c)
         circ, ps = qiskit_converter(qc, c["ps"])
+        # by now every case has been converted and every returned circuit has been edited in place: the same program
+        # converted again must give the circuit it gave the first time
+        d = core.approx_equal(circuit_obs(circ, ps), obs["ok"])
+        if d:
+            return f"converting the same program again (after other conversions and in-place edits of their results) gives a different circuit: {d}"
         budget = 2e8 if self.tier == "thorough" else 1e8
         msg, ran = check_unitary(circ, ps, qc, c["nq"], budget)
         if ran:
@@ -547,6 +644,8 @@ class C12:
     def nontrivial(self, c, obs):
         if c["kind"] == "adj":
             return abs(c["q0"] - c["q1"]) > 1
+        if c["kind"] == "badarg":
+            return False
         return any(len(g["q"]) >= 2 for g in c["gates"])
 
     def stats(self, cases, recs):
@@ -557,11 +656,13 @@ class C12:
         gates = Counter()
         nqs = Counter()
         heralded = Counter()
+        forms = Counter()
         for r in recs:
             c, io = r["case"], r["impl"]
             if c["kind"] != "conv" or not isinstance(io, dict):
                 continue
             outcomes["ok" if "ok" in io else io.get("err", "?")] += 1
+            forms[c.get("form", 0)] += 1
             nqs[c["nq"]] += 1
             for g in c["gates"]:
                 gates[g["n"]] += 1
@@ -569,13 +670,13 @@ class C12:
                 heralded[sum(b for _, b in io["ok"]["heralds"]["input"]) // 2] += 1
         return {"kinds": dict(kinds), "conv_outcomes": dict(outcomes), "gate_histogram": dict(gates),
                 "qubits": dict(nqs), "heralded_gates_per_converted_circuit": dict(heralded),
-                "oracle_evaluated": self.oracle_runs, "oracle_skipped_cost": self.oracle_skipped}
+                "call_forms(0 positional,1 default,2 keyword)": dict(forms), "oracle_evaluated": self.oracle_runs, "oracle_skipped_cost": self.oracle_skipped}
 
     def signature(self, c, rec):
         return None
 
     def shrink(self, c):
-        if c["kind"] == "adj":
+        if c["kind"] in ("adj", "badarg"):
             return
         for i in range(len(c["gates"])):
             d = copy.deepcopy(c)
